@@ -338,7 +338,7 @@ func describe(c []int) string {
 }
 
 // usedSchema: a schema value that already holds declarations of every kind (a reused decode target).
-// usedSchemas: receivers that already hold other declarations, in two prior-use states: one
+// usedSchemas: receivers that already hold other declarations, in three prior-use states: one
 // that has only been decoded, and one on which every accessor has been called (rendered,
 // converted, AST taken, resolved last), so that anything those calls cache is populated.
 func usedSchemas() []*schema.Schema {
@@ -351,7 +351,13 @@ entity TopOld; action topOld;`
 	_, _ = b.MarshalJSON()
 	_ = b.AST()
 	_, _ = b.Resolve()
-	return []*schema.Schema{&a, &b}
+	// ... and one on which a decode of each kind has just failed half way
+	var c schema.Schema
+	_ = c.UnmarshalCedar([]byte(old))
+	_, _ = c.Resolve()
+	_ = c.UnmarshalCedar([]byte(old + " entity Broken { a: "))
+	_ = c.UnmarshalJSON([]byte(`{"Old2": {"entityTypes": {"X": {}}, "actions": {"a": {"appliesTo": 5}}}}`))
+	return []*schema.Schema{&a, &b, &c}
 }
 
 func checkConfig(t *core.T, c []int) {
